@@ -8,6 +8,7 @@ mod cpustate;
 mod host;
 mod inputs;
 mod json;
+mod lockstep;
 mod machine;
 mod prng;
 mod props;
